@@ -114,6 +114,16 @@ def nodeKey : Value → Option Nat
   | .externalId n => some n
   | _ => none
 
+/-- mirrors `compare_value_for_list_ordering`: null elements are the greatest; `nn` is the result of
+    `order_compare_non_null(left, right)`, used only when neither side is null (a separate non-recursive
+    function so that the mutual block below stays structurally recursive). -/
+def listElemOrdering (x y : Value) (nn : Option Ordering) : Option Ordering :=
+  match x, y with
+  | .null, .null => some .eq
+  | .null, _ => some .gt
+  | _, .null => some .lt
+  | _, _ => nn
+
 mutual
 /-- mirrors `order_compare_non_null` (evaluator_compare.rs). -/
 def orderCompareNonNull : Value → Value → Option Ordering
@@ -143,19 +153,13 @@ def orderCompareNonNull : Value → Value → Option Ordering
   | l, r =>
     let rc := cmpNat (rank l) (rank r)
     if rc != .eq then some rc else dcmp l r
-/-- mirrors `compare_lists_ordering` with `compare_value_for_list_ordering` inlined
-    (null elements are the greatest). -/
+/-- mirrors `compare_lists_ordering`. -/
 def compareListsOrdering : List Value → List Value → Option Ordering
   | [], [] => some .eq
   | [], _ :: _ => some .lt
   | _ :: _, [] => some .gt
   | x :: xs, y :: ys =>
-    let o : Option Ordering := match x, y with
-      | .null, .null => some .eq
-      | .null, _ => some .gt
-      | _, .null => some .lt
-      | x, y => orderCompareNonNull x y
-    match o with
+    match listElemOrdering x y (orderCompareNonNull x y) with
     | some .eq => compareListsOrdering xs ys
     | nonEq => nonEq
 end
